@@ -7,6 +7,7 @@
 #include <arpa/inet.h>
 #include <fcntl.h>
 #include <poll.h>
+#include <sys/wait.h>
 #include <openssl/ssl.h>
 #include <openssl/err.h>
 
@@ -146,6 +147,23 @@ static int deliver(struct xcm_socket *from, struct xcm_socket *to, const char *m
 static struct xcm_socket *srvs[8]; static char srv_proto[8][16]; static struct pair pairs[16];
 static void close_pair(struct pair *p) { if (p->cli) xcm_close(p->cli); if (p->acc) xcm_close(p->acc); p->cli = p->acc = NULL; }
 
+/* live SSL_CTX objects of the process, counted through OpenSSL's ex_data hooks (nothing of the library is touched) */
+static int live_ctx;
+static void ctx_new_cb(void *parent, void *ptr, CRYPTO_EX_DATA *ad, int idx, long argl, void *argp) { (void)parent; (void)ptr; (void)ad; (void)idx; (void)argl; (void)argp; live_ctx++; }
+static void ctx_free_cb(void *parent, void *ptr, CRYPTO_EX_DATA *ad, int idx, long argl, void *argp) { (void)parent; (void)ptr; (void)ad; (void)idx; (void)argl; (void)argp; live_ctx--; }
+
+/* the forking-server hand-over: a child takes the connection over, the parent drops its copy with xcm_cleanup */
+static void forkclean_pair(struct pair *p)
+{
+    fflush(NULL);
+    pid_t pid = fork();
+    if (pid == 0) _exit(0);
+    int st; waitpid(pid, &st, 0);
+    if (p->cli) xcm_cleanup(p->cli);
+    if (p->acc) xcm_cleanup(p->acc);
+    p->cli = p->acc = NULL;
+}
+
 static void peer_desc(struct xcm_socket *s, char *out, size_t cap)
 {
     char names[512] = "-";
@@ -219,6 +237,7 @@ static struct xcm_socket *raw_handshake(SSL_CTX *cctx, struct xcm_socket *srv, c
 
 int main(void)
 {
+    CRYPTO_get_ex_new_index(CRYPTO_EX_INDEX_SSL_CTX, 0, NULL, ctx_new_cb, NULL, ctx_free_cb);
     static char line[H_LINE_MAX];
     char *w[H_MAXW];
     FILE *o = stdout;
@@ -229,17 +248,21 @@ int main(void)
     while (fgets(line, sizeof(line), stdin)) {
 	int n = h_words(line, w);
 	if (n == 0 || w[0][0] == '#') continue;
+	/* a directory name starting with "dirLong" is padded so that the directory's path is 246 characters long: the default file
+	   names then straddle 255 characters (<dir>/cert.pem is exactly 255 long) */
+#define DIRPATH(out, name) do { snprintf(out, sizeof(out), "%s/%s", run, name); \
+	if (!strncmp(name, "dirLong", 7)) { size_t l_ = strlen(out); while (l_ < 246 && l_ + 1 < sizeof(out)) out[l_++] = 'x'; out[l_] = 0; } } while (0)
 	if (!strcmp(w[0], "D") && n >= 4) {
 	    /* D <cert> <tc> <crl|-> [dir]: (re)write the default credential directory (atomic renames) */
 	    char dir[700]; snprintf(dir, sizeof(dir), "%s", dflt);
-	    if (n == 5) { snprintf(dir, sizeof(dir), "%s/%s", run, w[4]); mkdir(dir, 0700); }
+	    if (n == 5) { DIRPATH(dir, w[4]); mkdir(dir, 0700); }
 	    char base[200]; snprintf(base, sizeof(base), "%s", w[1]); char *dash = strstr(base, "-chain"); if (dash) *dash = 0;
 	    char ks[220]; snprintf(ks, sizeof(ks), "%s-key", base);
 	    write_named(dir, "key.pem", ks); write_named(dir, "cert.pem", w[1]); write_named(dir, "tc.pem", w[2]);
 	    if (strcmp(w[3], "-")) write_named(dir, "crl.pem", w[3]); else { char p[800]; snprintf(p, sizeof(p), "%s/crl.pem", dir); unlink(p); }
 	    fputs("ok\n", o);
 	} else if (!strcmp(w[0], "ENV") && n == 2) {
-	    char dir[700]; snprintf(dir, sizeof(dir), "%s/%s", run, w[1]);
+	    char dir[700]; DIRPATH(dir, w[1]);
 	    setenv("XCM_TLS_CERT", !strcmp(w[1], "default") ? dflt : dir, 1);
 	    fputs("ok\n", o);
 	} else if (!strcmp(w[0], "M") && n == 6) {
@@ -292,6 +315,8 @@ int main(void)
 	    char pc[600], pa[600]; peer_desc(p->cli, pc, sizeof(pc)); peer_desc(p->acc, pa, sizeof(pa));
 	    fprintf(o, "c2s=%d(%s) s2c=%d(%s) cli_sees=%s acc_sees=%s\n", c2s, why1, s2c, why2, pc, pa);
 	} else if (!strcmp(w[0], "CLOSE") && n == 2) { close_pair(&pairs[atoi(w[1]) % 16]); fputs("ok\n", o); }
+	else if (!strcmp(w[0], "FORKCLEAN") && n == 2) { forkclean_pair(&pairs[atoi(w[1]) % 16]); fputs("ok\n", o); }
+	else if (!strcmp(w[0], "CTXLIVE") && n == 1) { fprintf(o, "live_ctx=%d\n", live_ctx); }
 	else if (!strcmp(w[0], "CLOSESRV") && n == 2) { int id = atoi(w[1]) % 8; if (srvs[id]) xcm_close(srvs[id]); srvs[id] = NULL; fputs("ok\n", o); }
 	else if (!strcmp(w[0], "GARB") && n == 4) {
 	    /* GARB <proto> <hex garbage> <chunk>: an established connection B idles while, in the same thread, a raw peer writes garbage
